@@ -77,6 +77,26 @@ class Impl:
         pm = self.pk.ProblemKind.__dict__["has_" + name]
         return [f for f in pm.keywords["features"] if f in self.id]
 
+    def extra_compilers(self):
+        """compiler classes defined under unified_planning/engines/compilers/ that DEFAULT_ENGINES does not register: {class name: class}"""
+        import importlib
+        import inspect
+        import pkgutil
+        import unified_planning.engines.compilers as pkg
+        from unified_planning.engines.mixins.compiler import CompilerMixin
+        registered = set(c for _, (m, c) in self.fac.DEFAULT_ENGINES.items())
+        out = {}
+        for mi in pkgutil.iter_modules(pkg.__path__):
+            try:
+                mod = importlib.import_module(pkg.__name__ + "." + mi.name)
+            except ImportError:
+                continue
+            for nm, obj in vars(mod).items():
+                if (inspect.isclass(obj) and obj.__module__ == mod.__name__ and issubclass(obj, self.Engine)
+                        and issubclass(obj, CompilerMixin) and nm not in registered and nm != "CompilersPipeline"):
+                    out[nm] = obj
+        return out
+
     def tested_has(self, cls):
         """names x of the ProblemKind.has_x() tests made by cls.resulting_problem_kind (read from its compiled code object)"""
         fn = getattr(cls, "resulting_problem_kind", None)
@@ -238,10 +258,8 @@ def second_reading(I, ctx, factory, rng):
     cases, raw = [], []
     stats_branch = {}
     hot = [I.id[k] for k in I.pkv.FEATURES_VERSIONS if k in I.id]
-    for n in I.builtin:
-        if n not in factory.engines:
-            continue
-        cls = factory.engine(n)
+    todo = [(n, factory.engine(n)) for n in I.builtin if n in factory.engines] + sorted(I.extra_compilers().items())
+    for n, cls in todo:
         sk = cls.supported_kind()
         modes = [m for m in MODES if getattr(cls, "is_" + I.mode[m].value)()]
 
